@@ -9,7 +9,7 @@ From TK Require Import QuadTree_Model QuadTree_Spec QuadTree_SpecExec QuadTree_P
                        QuadTree_Proof_Insert QuadTree_Proof_Main QuadTree_Proof_Forces
                        QuadTree_Proof_Fuel QuadTree_Proof_Spec QuadTree_Proof_Exec
                        QuadTree_Proof_Observers QuadTree_Proof_Order QuadTree_Proof_Order2 QuadTree_Proof_Bound
-                       QuadTree_Proof_Gradient QuadTree_Proof_Dump
+                       QuadTree_Proof_Gradient QuadTree_Proof_Dump QuadTree_Proof_Coarse QuadTree_Proof_Counts
                        QuadTree_Proof_Final QuadTree_Proof_Sqrt.
 Import ListNotations.
 Local Open Scope Q_scope.
@@ -42,6 +42,9 @@ Theorem children_cover :
      fill_order true fuel data order (init root) = Done ok t -> ok = true).
 Proof. exact children_cover_final. Qed.
 Print Assumptions children_cover.
+Example children_cover_nonvacuous :
+  in_root ex_data ex_root ex_order /\ exists t, fill_order true 6 ex_data ex_order (init ex_root) = Done true t.
+Proof. exact ex_hyps_basic. Qed.
 
 (* 3. every inserted index is routed down exactly one root-to-leaf path of cells that contain
       its point; every cell's cum_size / center_of_mass are count / mean of the indices routed
@@ -58,6 +61,21 @@ Example routed_once_nonvacuous :
   exists t, fill_order true 6 ex_data ex_order (init ex_root) = Done true t
             /\ spec_okb ex_data ex_order t = true /\ struct_okb ex_data ex_order t = true.
 Proof. exact (conj ex_in_root ex_builds). Qed.
+
+(* 3'. the literal reading of "each cell's mass equals the count of the points inside its box": for EVERY cell c
+       of the tree (all_cells),  #{inserted i strictly inside the open box of c} <= cum_size(c) <= #{inserted i inside
+       the closed box of c}  (cell_counts_ok).  The two counts differ only by inserted points on the boundary of c,
+       which lie in two or four closed boxes and are counted in exactly one (routed_once). *)
+Theorem cell_mass_is_count_inside : forall fuel data order root ok t,
+  in_root data root order -> NoDup order ->
+  fill_order true fuel data order (init root) = Done ok t ->
+  all_cells (cell_counts_ok data order) t.
+Proof. exact cell_counts_final. Qed.
+Print Assumptions cell_mass_is_count_inside.
+Example cell_mass_is_count_inside_nonvacuous :
+  in_root ex_data ex_root ex_order /\ NoDup ex_order /\
+  exists t, fill_order true 6 ex_data ex_order (init ex_root) = Done true t.
+Proof. exact ex_hyps_counts. Qed.
 
 (* 3a. the code before fix F24 satisfies the same statement only without coincident points ... *)
 Theorem routed_once_shipped_nocoinc : forall fuel data order root ok t,
@@ -113,6 +131,11 @@ Theorem order_independent_tree : forall fuel1 fuel2 data order1 order2 root ok1 
   teq data t1 t2.
 Proof. exact order_independent_tree_final. Qed.
 Print Assumptions order_independent_tree.
+Example order_independent_tree_nonvacuous :
+  Permutation ex_order ex_order' /\ in_root ex_data ex_root ex_order /\
+  (exists t, fill_order true 6 ex_data ex_order (init ex_root) = Done true t) /\
+  (exists t, fill_order true 6 ex_data ex_order' (init ex_root) = Done true t).
+Proof. exact ex_hyps_order. Qed.
 
 (* 4b. the public observers: isCorrect() is true; getAllIndices() lists pairwise different inserted indices,
        exactly one for every class of coincident inserted points *)
@@ -126,6 +149,9 @@ Theorem observers : forall fuel data order root ok t,
                   coinc data i j -> coinc data i j' -> j = j').
 Proof. exact observers_final. Qed.
 Print Assumptions observers.
+Example observers_nonvacuous :
+  in_root ex_data ex_root ex_order /\ exists t, fill_order true 6 ex_data ex_order (init ex_root) = Done true t.
+Proof. exact ex_hyps_basic. Qed.
 
 (* 4c. the mean-centred root box of QuadTree(Y, N) (what tsne.hpp constructs) contains all N points, for
        every slack >= 0 (the code adds 1e-5): the hypothesis in_root of the theorems above holds for it *)
@@ -162,6 +188,9 @@ Theorem forces_eventually_exact : forall fuel data order root ok t,
       forall i a, forces data i theta t a = forces data i 0 t a.
 Proof. exact forces_eventually_exact_final. Qed.
 Print Assumptions forces_eventually_exact.
+Example forces_eventually_exact_nonvacuous :
+  in_root ex_data ex_root ex_order /\ exists t, fill_order true 6 ex_data ex_order (init ex_root) = Done true t.
+Proof. exact ex_hyps_basic. Qed.
 
 (* 6a. 5 and 6 together *)
 Theorem forces_small_theta_exact : forall fuel data order root ok t,
@@ -173,6 +202,10 @@ Theorem forces_small_theta_exact : forall fuel data order root ok t,
         exists r, forces data i theta t a = FDone r /\ feq r (fadd a (exact_sums data p i order)).
 Proof. exact forces_small_theta_exact_final. Qed.
 Print Assumptions forces_small_theta_exact.
+Example forces_small_theta_exact_nonvacuous :
+  in_root ex_data2 ex_root ex_order2 /\ NoCo ex_data2 ex_order2 /\
+  exists t, fill_order true 6 ex_data2 ex_order2 (init ex_root) = Done true t.
+Proof. exact ex_hyps_noco. Qed.
 
 (* 6b. quantitative form of "the error vanishes as theta -> 0": no coincident points, 0 <= theta, 8 theta^2 <= 1;
        with eps = 9 theta + 8 theta^2 (epsf) and kap = eps (2 + eps) / 2 (kapf), `bound theta r0 e` says
@@ -202,6 +235,11 @@ Theorem forces_order_independent : forall fx fuel1 fuel2 data order1 order2 root
   forall p i theta a, feq (forces_at p i theta t1 a) (forces_at p i theta t2 a).
 Proof. exact forces_order_independent_final. Qed.
 Print Assumptions forces_order_independent.
+Example forces_order_independent_nonvacuous :
+  Permutation ex_order2 ex_order2' /\ in_root ex_data2 ex_root ex_order2 /\ NoCo ex_data2 ex_order2 /\
+  (exists t, fill_order true 6 ex_data2 ex_order2 (init ex_root) = Done true t) /\
+  (exists t, fill_order true 6 ex_data2 ex_order2' (init ex_root) = Done true t).
+Proof. exact ex_hyps_order2. Qed.
 
 (* 6d. masses: every internal cell's cum_size is the sum of its children's and at least 2; every occupied leaf's
        count[0] (the field of fix F24) equals its cum_size *)
@@ -210,6 +248,9 @@ Theorem leaf_count_is_mass : forall fuel data order root ok t,
   fill_order true fuel data order (init root) = Done ok t -> count_ok t.
 Proof. exact count_ok_final. Qed.
 Print Assumptions leaf_count_is_mass.
+Example leaf_count_is_mass_nonvacuous :
+  in_root ex_data ex_root ex_order /\ exists t, fill_order true 6 ex_data ex_order (init ex_root) = Done true t.
+Proof. exact ex_hyps_basic. Qed.
 
 (* 6e. tsne.hpp (computeGradient / evaluateError): `for n: tree->computeNonEdgeForces(n, theta, neg_f + n*D, &sum_Q)`
        with neg_f zeroed and ONE running sum_Q (nonedge_loop).  theta = 0, no coincident points: every row is the exact
@@ -233,6 +274,11 @@ Theorem nonedge_loop_bound : forall fx fuel data order root ok t,
                 s - (sq + total_sq data order ns) <= epsf theta * total_sq data order ns.
 Proof. exact nonedge_loop_bound_final. Qed.
 Print Assumptions nonedge_loop_bound.
+Example nonedge_loop_nonvacuous :
+  (in_root ex_data2 ex_root ex_order2 /\ NoCo ex_data2 ex_order2 /\
+   exists t, fill_order true 6 ex_data2 ex_order2 (init ex_root) = Done true t) /\
+  (forall n, In n (seq 0 4) -> (n < length ex_data2)%nat) /\ 0 <= (1 # 8) /\ 8 * ((1 # 8) * (1 # 8)) <= 1.
+Proof. exact ex_hyps_loop. Qed.
 
 (* 7. points on a grid of step g in a root box of half-size <= 2^d g: fuel d + 3 suffices, i.e. the
       recursion of insert() is at most that deep and the run is never `OutOfFuel` *)
@@ -259,6 +305,9 @@ Theorem struct_okb_sound : forall data ins t,
   struct_okb data ins t = true -> spec data ins (recom data ins t) /\ cum_consistent t = true.
 Proof. exact struct_okb_sound_final. Qed.
 Print Assumptions struct_okb_sound.
+Example decision_procedures_nonvacuous :
+  exists t, spec_okb ex_data ex_order t = true /\ struct_okb ex_data ex_order t = true.
+Proof. exact ex_spec_okb. Qed.
 
 (* 8a. the force clauses follow from the SPECIFICATION of the tree alone - for any tree, however it was built; in
        particular for the dump of the real tree once the extracted checker struct_okb has accepted it (centres of
@@ -271,6 +320,8 @@ Theorem spec_implies_force_clauses : forall data ins t,
        bound theta (forces_at p i theta t (0, 0, 0)) (exact_sums data p i ins)).
 Proof. exact spec_forces_final. Qed.
 Print Assumptions spec_implies_force_clauses.
+Example spec_implies_force_clauses_nonvacuous : exists t, spec ex_data2 ex_order2 t /\ NoCo ex_data2 ex_order2.
+Proof. exact ex_spec_noco. Qed.
 Theorem checked_dump_force_clauses : forall data ins t,
   struct_okb data ins t = true -> NoCo data ins ->
   forall i p, nth_error data i = Some p ->
@@ -281,6 +332,23 @@ Proof. exact dump_forces_final. Qed.
 Print Assumptions checked_dump_force_clauses.
 Example checked_dump_nonvacuous : exists t, struct_okb ex_data2 ex_order2 t = true /\ NoCo ex_data2 ex_order2.
 Proof. exact ex_dump. Qed.
+
+(* 8c. EVERY theta (the whole range [0, 2] of the property and beyond), no coincident points: the tree code returns
+       the all-pairs sums of a coarsened point set - the inserted indices are partitioned into groups (`items`), each
+       group g enters as |g| copies of its mean (item_ok: agg_ok g |g| com; add_item = one add_summary with cum = |g|),
+       and the group {i} of the query point is dropped when its own leaf is reached (None).  theta only decides how
+       coarse the partition is.  For any tree satisfying spec, e.g. the checked dump of the real tree. *)
+Theorem forces_coarsened : forall data ins t,
+  spec data ins t -> NoCo data ins ->
+  forall p i theta,
+    exists items : list item,
+      Permutation (concat (map fst items)) ins /\
+      Forall (item_ok data i) items /\
+      forall a, forces_at p i theta t a = fold_left (add_item p) items a.
+Proof. exact forces_coarsened_final. Qed.
+Print Assumptions forces_coarsened.
+Example forces_coarsened_nonvacuous : exists t, spec ex_data2 ex_order2 t /\ NoCo ex_data2 ex_order2.
+Proof. exact ex_spec_noco. Qed.
 
 (* 8b. end to end for the constructor tsne.hpp uses, `new QuadTree(Y, N)` = root box from the data + fill(N)
        (tsne_tree; slack is the 1e-5 of the code, any slack >= 0 will do): every clause of the property *)
